@@ -97,7 +97,9 @@ def make_pair(gene, reads, indel, params, tmp, gap=False):
         for k in range(3):
             fr.append(c06.FakeRead(
                 cigartuples=[tuple(c) for c in cigar], cigarstring="x",
-                is_supplementary=False, query_sequence=seq, query_name=f"frag{i}",
+                is_supplementary=False, query_sequence=seq,
+                # names run against the order of the file (name order != parse order)
+                query_name=f"frag{len(reads) - i:03d}",
                 reference_id=0, reference_name=gene.chr, reference_start=start,
                 reference_end=end, mapping_quality=50, query_qualities=[30] * len(seq)))
     # long anchor reads so that the neutral region has depth >= 2
@@ -157,6 +159,13 @@ def compare(gene, s1, s2):
                              if len(v) > 1)
     if p1 != p2:
         probs.append(("phases", f"multi-site phase records {dict(p1)} vs {dict(p2)}"))
+    # the minor stage reads the phase table in iteration order (and down-samples it by
+    # position), so the order of the records is part of what a replay must reproduce
+    o1 = [tuple(sorted(v.items())) for v in s1.phases.values() if len(v) > 1]
+    o2 = [tuple(sorted(v.items())) for v in s2.phases.values() if len(v) > 1]
+    if p1 == p2 and o1 != o2:
+        probs.append(("phase-order", f"multi-site phase records come in another order: "
+                                     f"{o1[:4]} vs {o2[:4]}"))
     d1, d2 = dict(s1.profile.__dict__), dict(s2.profile.__dict__)
     for k in ("data",):
         d1.pop(k, None)
